@@ -598,17 +598,19 @@ class DocumentMapper:
         return sum(len(s.text) for s in self.spans if s.run is span.run and s.start < span.start)
 
     def get_insertion_anchor(self, index: int) -> Optional[Run]:
+        def after_span(span: TextSpan) -> Run:
+            # A run with line breaks and markers has several spans: a span may end in the middle of its run, and the
+            # insertion belongs there, not after the whole run.
+            offset = self._offset_in_run(span) + len(span.text)
+            if offset < len(get_run_text(span.run)):
+                left, _ = self._split_run_at_index(span.run, offset)
+                return left
+            return span.run
+
         preceding = [s for s in self.spans if s.end == index]
         if preceding:
             if preceding[-1].run:
-                # A run with line breaks and markers has several spans: the index may end one of them in the middle
-                # of the run, and the insertion belongs there, not after the whole run.
-                span = preceding[-1]
-                offset = self._offset_in_run(span) + len(span.text)
-                if offset < len(get_run_text(span.run)):
-                    left, _ = self._split_run_at_index(span.run, offset)
-                    return left
-                return span.run
+                return after_span(preceding[-1])
         containing = [s for s in self.spans if s.start < index < s.end]
         if containing:
             span = containing[0]
@@ -629,7 +631,7 @@ class DocumentMapper:
         if preceding_gap:
             for s in reversed(preceding_gap):
                 if s.run:
-                    return s.run
+                    return after_span(s)
         return None
 
     def _split_run_at_index(self, run: Run, split_index: int) -> Tuple[Run, Run]:
